@@ -1,6 +1,7 @@
 package harness
 
 import (
+	"github.com/alpacahq/marketstore/v4/zzverif/simos"
 	"strings"
 	"fmt"
 	"sort"
@@ -23,6 +24,10 @@ func c35Engine() *Engine {
 		w := schedWorkload(seed, tier, 50)
 		bg := r.Pct(75)
 		w.Node.BackgroundSync = bg
+		// no stalled tasks here: requests that overlap Shutdown for long open a
+		// whole family of symptoms of one known defect (Shutdown does not keep
+		// requests out; haveWALWriter) that this check could only list, not decide
+		w.Sim.SlowPermille = 0
 		if !bg {
 			// without the background writer flushes run in the caller: one writer
 			// (concurrent inline flushes are C17/C18's known deadlock)
@@ -93,14 +98,19 @@ func c35Engine() *Engine {
 		{
 			evs := decodeWalEvents(sr.log)
 			lastCk := -1
+			ckTG := int64(-1)
 			for i, e := range evs {
 				if e.kind == "ckdone" {
 					lastCk = i
+					ckTG = e.tgid
 				}
 			}
+			// a transaction group is covered by the last completed checkpoint iff its
+			// id is not above the checkpoint's (position in the file does not matter:
+			// a checkpoint records the last committed id it saw when it began)
 			who := map[string]bool{}
-			for _, e := range evs[lastCk+1:] {
-				if e.kind == "tgdata" {
+			for _, e := range evs {
+				if e.kind == "tgdata" && (lastCk < 0 || e.tgid > ckTG) {
 					if strings.HasPrefix(sr.sim.TaskName(sr.log[e.i].Task), "client") {
 						who["request"] = true
 					} else {
@@ -119,9 +129,38 @@ func c35Engine() *Engine {
 				unchecked = "unchecked-tg-by-wal-writer"
 			}
 		}
-		// (1) same result for every query before and after
+		if verboseLog {
+			for _, e := range decodeWalEvents(sr.log) {
+				o := sr.log[e.i]
+				fmt.Printf("  EV %4d %-9s tg=%d task=%s t=%dms %s\n", e.i, e.kind, e.tgid%1000, sr.sim.TaskName(o.Task), (o.Time-sr.log[0].Time)/1e6, strings.TrimPrefix(o.Path, dataRoot))
+			}
+			for _, o := range sr.log {
+				if o.Kind == simos.OpMarker {
+					fmt.Printf("  MARK %4d %s t=%dms\n", o.Seq, o.Note, (o.Time-sr.log[0].Time)/1e6)
+				}
+			}
+			fmt.Printf("  C35 seed=%d mode=%s stuck=%d unchecked=%s replayWork=%v\n", seed, mode, sr.stuckClients, unchecked, replayWork(rc.Log))
+		}
+		// (1) same result for every query before and after. A write request that had
+		// not returned when the final queries began (it is killed by the process
+		// exit at an arbitrary point, nobody was told it succeeded) may leave its
+		// bucket in any in-between state: such buckets are judged by (2) only.
+		inflight := map[string]bool{}
+		for _, op := range sr.ops {
+			if op.kind == "write" && (op.ack == 0 || op.ack > sr.finalStart) {
+				for _, wr := range op.w {
+					for _, p := range wr.Parts {
+						inflight[p.B.Key()] = true
+					}
+				}
+			}
+		}
 		for _, b := range bs {
 			key := b.Key()
+			if inflight[key] {
+				res.Count("buckets-with-request-in-flight-at-exit", 1)
+				continue
+			}
 			if sr.finalErr[key] != nil || rc.QErr[key] != nil {
 				if (sr.finalErr[key] == nil) != (rc.QErr[key] == nil) {
 					mk("query-differs", "query-differs|error|"+kindOf(b), fmt.Sprintf("bucket %s: before restart err=%v, after restart err=%v", key, sr.finalErr[key], rc.QErr[key]))
